@@ -1,6 +1,6 @@
 (* Proofs about the pager model (C15).  Everything is by induction over the listing / the number
    of calls; nothing is bounded. *)
-From SC Require Import Base.Prelude Pages.Pager Pages.C15Judge.
+From SC Require Import Base.Prelude Pages.Codec Pages.CodecProofs Pages.PagerCfg Pages.Pager Pages.C15Judge.
 From Coq Require Import OrderedTypeEx Sorted.
 
 Local Open Scope Z_scope.
@@ -328,131 +328,229 @@ Proof.
 Qed.
 
 (* ------------------------------------------------------------------ *)
+(* configurations                                                        *)
+(* ------------------------------------------------------------------ *)
+
+Lemma cfg_ok_spec c : cfg_ok c = true ->
+  pc_default c = 50 /\ pc_max c = 1000 /\ pc_enc c = pc_dec c
+  /\ pc_validates c = true /\ pc_mask_before c = false.
+Proof.
+  unfold cfg_ok. intros H.
+  repeat (apply andb_true_iff in H; destruct H as [H ?]).
+  apply Z.eqb_eq in H. 
+  repeat split; auto.
+  - apply Z.eqb_eq. assumption.
+  - destruct (pc_enc c), (pc_dec c); simpl in *; congruence.
+  - apply negb_true_iff. assumption.
+Qed.
+
+Lemma cap_of_ok c size : cfg_ok c = true -> cap_of c size = cap_page_size size.
+Proof.
+  intros H. destruct (cfg_ok_spec c H) as [Hd [Hm _]].
+  unfold cap_of, cap_page_size, default_page_size, max_page_size. rewrite Hd, Hm. reflexivity.
+Qed.
+
+Lemma in32_wrap n : in32 n = true -> wrap32 n = n.
+Proof.
+  unfold in32, wrap32. intros H. apply andb_true_iff in H. destruct H as [H1 H2].
+  apply Z.leb_le in H1. apply Z.leb_le in H2.
+  rewrite Z.mod_small by lia. lia.
+Qed.
+
+(* ------------------------------------------------------------------ *)
 (* one page                                                              *)
 (* ------------------------------------------------------------------ *)
 
-Lemma key_page_core_split v keys pre rest lastKey size :
-  keys = pre ++ rest -> next_index v keys lastKey = zlen pre -> 0 <= size ->
-  key_page_core v keys lastKey size =
-    if zlen rest <? cap_page_size size
-    then OPage rest None (zlen keys)
-    else OPage (firstn (Z.to_nat (cap_page_size size)) rest)
-               (Some (nth (Z.to_nat (cap_page_size size) - 1) rest EmptyString)) (zlen keys).
+Lemma key_page_core_split c keys pre rest lastKey extra size :
+  keys = pre ++ rest -> next_index (pc_variant c) keys lastKey = zlen pre -> 1 <= cap_of c size ->
+  key_page_core c keys keys lastKey extra size =
+    if zlen rest <? cap_of c size
+    then OPage rest None (wrap32 (zlen keys))
+    else OPage (firstn (Z.to_nat (cap_of c size)) rest)
+               (Some (encode_token_x (pc_enc c) (nth (Z.to_nat (cap_of c size) - 1) rest EmptyString) extra))
+               (wrap32 (zlen keys)).
 Proof.
-  intros -> Hni Hsize. unfold key_page_core. rewrite Hni.
-  pose proof (cap_bounds size Hsize) as Hc. set (c := cap_page_size size) in *.
+  intros -> Hni Hc. unfold key_page_core. rewrite Hni.
+  set (cp := cap_of c size) in *.
   pose proof (zlen_nonneg pre) as Hp0. pose proof (zlen_nonneg rest) as Hr0.
   rewrite zlen_app.
-  destruct (Z.ltb_spec (zlen rest) c) as [Hlt|Hge].
-  - destruct (Z.ltb_spec (zlen pre + zlen rest) (zlen pre + c)); [|lia].
+  destruct (Z.ltb_spec (zlen rest) cp) as [Hlt|Hge].
+  - destruct (Z.ltb_spec (zlen pre + zlen rest) (zlen pre + cp)); [|lia].
     destruct (Z.leb_spec (zlen pre) (zlen pre + zlen rest)); [|lia].
     f_equal. unfold slice.
     rewrite to_nat_zlen, skipn_app, skipn_all, Nat.sub_diag. simpl.
     replace (zlen pre + zlen rest - zlen pre) with (zlen rest) by lia.
     rewrite to_nat_zlen. apply firstn_all.
-  - destruct (Z.ltb_spec (zlen pre + zlen rest) (zlen pre + c)); [lia|].
-    destruct (Z.ltb_spec (zlen pre + c - 1) 0); [lia|].
-    destruct (Z.ltb_spec (zlen pre + c) (zlen pre)); [lia|].
+  - destruct (Z.ltb_spec (zlen pre + zlen rest) (zlen pre + cp)); [lia|].
+    destruct (Z.ltb_spec (zlen pre + cp - 1) 0); [lia|].
+    destruct (Z.ltb_spec (zlen pre + cp) (zlen pre)); [lia|].
     f_equal.
     + unfold slice. rewrite to_nat_zlen, skipn_app, skipn_all, Nat.sub_diag. simpl.
-      replace (zlen pre + c - zlen pre) with c by lia. reflexivity.
-    + f_equal.
-      assert (Hx : zlen pre <= zlen pre + c - 1 < zlen pre + zlen rest) by lia.
+      replace (zlen pre + cp - zlen pre) with cp by lia. reflexivity.
+    + f_equal. f_equal.
+      assert (Hx : zlen pre <= zlen pre + cp - 1 < zlen pre + zlen rest) by lia.
       destruct (nth_key_rest pre rest _ Hx) as [-> _].
-      f_equal. lia.
+      f_equal. f_equal. lia.
 Qed.
 
 (* ------------------------------------------------------------------ *)
-(* page chains                                                           *)
+(* page chains with a page size per request                              *)
 (* ------------------------------------------------------------------ *)
 
-(* what a complete chain over [rest] looks like: only pages, ended by the empty token, pages
-   concatenate to [rest], each at most c items and total n, exactly |rest|/c + 1 calls *)
-Definition chain_good {T} (rest : list string) (c n : Z) (obs : list (outcome T)) : Prop :=
-  chain_shape_ok obs = true /\ concat_keys obs = rest
-  /\ forallb (page_fits c n) obs = true /\ zlen obs = zlen rest / c + 1.
+Lemma is_prefix_refl l : is_prefix l l = true.
+Proof. induction l; simpl; auto. rewrite String.eqb_refl. exact IHl. Qed.
 
-Lemma chain_good_last {T} rest c n (next : option T) :
-  next = None -> zlen rest < c -> chain_good rest c n [OPage rest next n].
+Lemma is_prefix_firstn m : forall l, is_prefix (firstn m l) l = true.
+Proof. induction m; intros [|x l]; simpl; auto. rewrite String.eqb_refl. apply IHm. Qed.
+
+Lemma is_prefix_split : forall a b, is_prefix a b = true -> b = a ++ skipn (List.length a) b.
 Proof.
-  intros -> Hlt. pose proof (zlen_nonneg rest). repeat split.
-  - simpl. apply app_nil_r.
-  - simpl. rewrite Z.eqb_refl. destruct (Z.leb_spec (zlen rest) c); [reflexivity|lia].
-  - rewrite Z.div_small by lia. reflexivity.
+  induction a as [|x a IH]; intros [|y b] H; simpl in *; try discriminate; auto.
+  apply andb_true_iff in H. destruct H as [Hxy H]. apply String.eqb_eq in Hxy. subst. f_equal. auto.
 Qed.
 
-Lemma chain_good_cons {T} page (k : T) rest' c n (obs : list (outcome T)) :
-  0 < c -> zlen page = c ->
-  chain_good rest' c n obs ->
-  chain_good (page ++ rest') c n (OPage page (Some k) n :: obs).
+Lemma chain_req_nonempty {T Tok} (page : Tok -> Z -> outcome T) wrap sizes tok :
+  sizes <> [] -> is_nil (chain_req page wrap sizes tok) = false.
+Proof. destruct sizes; [congruence|reflexivity]. Qed.
+
+(* number of calls a client makes to list r remaining items when request i asks for sizes[i] *)
+Fixpoint calls_key (r : Z) (sizes : list Z) : Z :=
+  match sizes with
+  | [] => 0
+  | s :: ss =>
+      if s <? 0 then 1
+      else if r <? cap_page_size s then 1
+      else 1 + calls_key (r - cap_page_size s) ss
+  end.
+
+Lemma calls_key_le : forall sizes r, 0 <= r -> calls_key r sizes <= r + 1.
 Proof.
-  intros Hc Hlen [Hs [Hcat [Hfit Hn]]]. repeat split.
-  - exact Hs.
-  - simpl. rewrite <- Hcat. reflexivity.
-  - simpl. rewrite Hfit, Z.eqb_refl. destruct (Z.leb_spec (zlen page) c); [reflexivity|lia].
-  - rewrite zlen_cons, Hn, zlen_app, Hlen.
-    replace (c + zlen rest') with (zlen rest' + 1 * c) by lia.
-    rewrite Z.div_add by lia. lia.
+  induction sizes as [|s ss IH]; intros r Hr; cbn [calls_key]; [lia|].
+  destruct (Z.ltb_spec s 0); [lia|].
+  destruct (Z.ltb_spec r (cap_page_size s)); [lia|].
+  pose proof (cap_bounds s ltac:(lia)). specialize (IH (r - cap_page_size s) ltac:(lia)). lia.
 Qed.
 
-Lemma key_page_ok_tok v keys tok size :
-  tok <> TokMalformed -> 0 <= size ->
-  key_page v keys tok size = key_page_core v keys (last_key tok) size.
+Lemma calls_key_const size : 0 <= size -> forall fuel r, 0 <= r ->
+  r / cap_page_size size + 1 <= Z.of_nat fuel ->
+  calls_key r (const_sizes size fuel) = r / cap_page_size size + 1.
 Proof.
-  intros Ht Hs. unfold key_page. destruct tok; try contradiction;
-    destruct (Z.ltb_spec size 0); try lia; reflexivity.
+  intros Hs. pose proof (cap_bounds size Hs) as Hc. set (c := cap_page_size size) in *.
+  induction fuel as [|f IH]; intros r Hr Hf.
+  - assert (0 <= r / c) by (apply Z.div_pos; lia). lia.
+  - unfold const_sizes. cbn [repeat calls_key]. fold (const_sizes size f). fold c.
+    destruct (Z.ltb_spec size 0); [lia|].
+    destruct (Z.ltb_spec r c) as [Hlt|Hge].
+    + rewrite Z.div_small by lia. reflexivity.
+    + assert (Hd : r / c = (r - c) / c + 1).
+      { replace r with (r - c + 1 * c) at 1 by lia. rewrite Z.div_add by lia. lia. }
+      rewrite IH by lia. lia.
 Qed.
 
-Lemma key_chain_from v keys size :
-  StronglySorted slt keys -> ~ In EmptyString keys -> 0 <= size ->
-  forall fuel pre rest tok,
-    keys = pre ++ rest -> tok <> TokMalformed ->
-    next_index v keys (last_key tok) = zlen pre ->
-    zlen rest / cap_page_size size < Z.of_nat fuel ->
-    chain_good rest (cap_page_size size) (zlen keys) (key_chain v keys size fuel tok).
+Definition keys_utf8 (keys : list string) : Prop := forall k, In k keys -> key_utf8 k = true.
+
+Lemma key_page_ok_tok c keys dropkey w size :
+  cfg_ok c = true -> token_of c w <> TokMalformed -> 0 <= size ->
+  key_page c keys dropkey w size = key_page_core c keys keys (last_key (token_of c w)) (extra_of c w) size.
 Proof.
-  intros Hs Hne Hsize. pose proof (cap_bounds size Hsize) as Hc. set (c := cap_page_size size) in *.
-  induction fuel as [|f IH]; intros pre rest tok Hk Htok Hni Hfuel.
-  - pose proof (zlen_nonneg rest). assert (0 <= zlen rest / c) by (apply Z.div_pos; lia). lia.
-  - unfold key_chain. cbn [chain_with].
-    rewrite (key_page_ok_tok v keys tok size Htok Hsize).
-    rewrite (key_page_core_split v keys pre rest (last_key tok) size Hk Hni Hsize). fold c.
-    pose proof (zlen_nonneg rest) as Hr0.
-    destruct (Z.ltb_spec (zlen rest) c) as [Hlt|Hge].
-    + apply chain_good_last; auto.
-    + (* a full page; the chain goes on behind its last key *)
-      set (cn := Z.to_nat c).
-      assert (Hcn : (1 <= cn <= List.length rest)%nat) by (unfold cn, zlen in *; lia).
-      set (F := firstn cn rest). set (R := skipn cn rest).
-      set (k' := nth (cn - 1) rest EmptyString).
-      assert (HF : F = firstn (cn - 1) rest ++ [k']).
-      { unfold F, k'. replace cn with (S (cn - 1)) at 1 by lia. apply firstn_succ_nth. lia. }
-      assert (HFR : rest = F ++ R) by (unfold F, R; symmetry; apply firstn_skipn).
-      assert (HlenF : zlen F = c).
-      { unfold zlen, F. rewrite firstn_length_le by lia. unfold cn. lia. }
-      assert (Hkeys : keys = (pre ++ firstn (cn - 1) rest) ++ k' :: R).
-      { rewrite Hk. rewrite <- app_assoc. f_equal. transitivity (F ++ R); [exact HFR|].
-        rewrite HF. rewrite <- app_assoc. reflexivity. }
-      assert (Hin : In k' keys) by (rewrite Hkeys; apply in_elt).
-      assert (Hk'ne : k' <> EmptyString) by (intros Heq; apply Hne; rewrite <- Heq; exact Hin).
-      pose proof Hs as Hs'. rewrite Hkeys in Hs'.
-      destruct (sorted_split_at _ _ _ Hs') as [Hle Hgt].
-      assert (Hkeys' : keys = (pre ++ F) ++ R).
-      { rewrite Hk. rewrite <- app_assoc. f_equal. exact HFR. }
-      assert (Hni' : next_index v keys (last_key (TokKey k')) = zlen (pre ++ F)).
-      { simpl. apply (next_index_split v keys (pre ++ F) R k' Hs Hkeys' Hk'ne); auto.
-        rewrite HF, app_assoc. exact Hle. }
-      assert (HlenR : zlen R = zlen rest - c).
-      { assert (Hz : zlen rest = zlen F + zlen R) by (rewrite <- zlen_app; f_equal; exact HFR). lia. }
-      assert (Hfuel' : zlen R / c < Z.of_nat f).
-      { rewrite HlenR. replace (zlen rest - c) with (zlen rest + (-1) * c) by lia.
-        rewrite Z.div_add by lia. lia. }
-      assert (Htok' : TokKey k' <> TokMalformed) by discriminate.
-      specialize (IH (pre ++ F) R (TokKey k') Hkeys' Htok' Hni' Hfuel').
-      change (chain_good rest c (zlen keys)
-                (OPage F (Some k') (zlen keys) :: key_chain v keys size f (TokKey k'))).
-      rewrite HFR at 1.
-      apply chain_good_cons; auto. lia.
+  intros Hc Ht Hs. destruct (cfg_ok_spec c Hc) as [_ [_ [_ [Hv Hm]]]].
+  unfold key_page. rewrite Hv, Hm. cbn [andb].
+  destruct (Z.ltb_spec size 0); [lia|].
+  destruct (token_of c w); try contradiction; reflexivity.
+Qed.
+
+Lemma key_page_negative c keys dropkey w size :
+  cfg_ok c = true -> size < 0 -> key_page c keys dropkey w size = OErr InvalidArgument.
+Proof.
+  intros Hc Hs. destruct (cfg_ok_spec c Hc) as [_ [_ [_ [Hv _]]]].
+  unfold key_page. rewrite Hv. cbn [andb].
+  destruct (Z.ltb_spec size 0); [|lia]. destruct (token_of c w); reflexivity.
+Qed.
+
+Lemma token_of_minted c k e : cfg_ok c = true -> key_utf8 k = true -> Forall is_byte e ->
+  token_of c (WRaw (encode_token_x (pc_enc c) k e)) = TokKey k
+  /\ extra_of c (WRaw (encode_token_x (pc_enc c) k e)) = e.
+Proof.
+  intros Hc Hu Hb. destruct (cfg_ok_spec c Hc) as [_ [_ [He _]]].
+  unfold token_of, extra_of. rewrite <- He. rewrite minted_roundtrip by assumption. split; reflexivity.
+Qed.
+
+(* THE induction: any listing, any page sizes (also negative ones), from any position *)
+Lemma key_chain_from c keys dropkey :
+  cfg_ok c = true -> StronglySorted slt keys -> ~ In EmptyString keys -> keys_utf8 keys ->
+  forall sizes pre rest w,
+    keys = pre ++ rest -> token_of c w <> TokMalformed -> Forall is_byte (extra_of c w) ->
+    next_index (pc_variant c) keys (last_key (token_of c w)) = zlen pre ->
+    zlen rest < zlen sizes ->
+    let obs := key_chain c keys dropkey sizes w in
+    enumerates rest (wrap32 (zlen keys)) sizes obs = true
+    /\ zlen obs = calls_key (zlen rest) sizes.
+Proof.
+  intros Hc Hs Hne Hu.
+  induction sizes as [|s ss IH]; intros pre rest w Hk Htok Hex Hni Hfuel obs.
+  - pose proof (zlen_nonneg rest). unfold zlen in Hfuel at 2. simpl in Hfuel. lia.
+  - unfold obs, key_chain. cbn [chain_req]. fold (key_chain c keys dropkey).
+    destruct (Z.ltb_spec s 0) as [Hneg|Hpos].
+    + rewrite (key_page_negative c keys dropkey w s Hc Hneg). cbn [enumerates calls_key].
+      destruct (Z.ltb_spec s 0); [|lia]. split; reflexivity.
+    + rewrite (key_page_ok_tok c keys dropkey w s Hc Htok Hpos).
+      pose proof (cap_bounds s Hpos) as Hcb.
+      assert (Hcap : cap_of c s = cap_page_size s) by (apply cap_of_ok; exact Hc).
+      rewrite (key_page_core_split c keys pre rest _ (extra_of c w) s Hk Hni) by lia.
+      rewrite Hcap. set (cp := cap_page_size s) in *.
+      pose proof (zlen_nonneg rest) as Hr0.
+      cbn [calls_key]. destruct (Z.ltb_spec s 0) as [|_]; [lia|]. fold cp.
+      destruct (Z.ltb_spec (zlen rest) cp) as [Hlt|Hge].
+      * cbn [enumerates]. destruct (Z.ltb_spec s 0) as [|_]; [lia|].
+        rewrite (cap_is_spec s Hpos). fold cp.
+        destruct (Z.leb_spec (zlen rest) cp); [|lia].
+        rewrite !Z.eqb_refl, is_prefix_refl. split; reflexivity.
+      * set (cn := Z.to_nat cp).
+        assert (Hcn : (1 <= cn <= List.length rest)%nat) by (unfold cn, zlen in *; lia).
+        set (F := firstn cn rest). set (R := skipn cn rest).
+        set (k' := nth (cn - 1) rest EmptyString).
+        assert (HF : F = firstn (cn - 1) rest ++ [k']).
+        { unfold F, k'. replace cn with (S (cn - 1)) at 1 by lia. apply firstn_succ_nth. lia. }
+        assert (HFR : rest = F ++ R) by (unfold F, R; symmetry; apply firstn_skipn).
+        assert (HlenFn : List.length F = cn) by (unfold F; apply firstn_length_le; lia).
+        assert (HlenF : zlen F = cp) by (unfold zlen; rewrite HlenFn; unfold cn; lia).
+        assert (Hkeys : keys = (pre ++ firstn (cn - 1) rest) ++ k' :: R).
+        { rewrite Hk. rewrite <- app_assoc. f_equal. transitivity (F ++ R); [exact HFR|].
+          rewrite HF. rewrite <- app_assoc. reflexivity. }
+        assert (Hin : In k' keys) by (rewrite Hkeys; apply in_elt).
+        assert (Hk'ne : k' <> EmptyString) by (intros Heq; apply Hne; rewrite <- Heq; exact Hin).
+        pose proof Hs as Hs'. rewrite Hkeys in Hs'.
+        destruct (sorted_split_at _ _ _ Hs') as [Hle Hgt].
+        assert (Hkeys' : keys = (pre ++ F) ++ R).
+        { rewrite Hk. rewrite <- app_assoc. f_equal. exact HFR. }
+        set (w' := WRaw (encode_token_x (pc_enc c) k' (extra_of c w))).
+        assert (Htk : token_of c w' = TokKey k' /\ extra_of c w' = extra_of c w)
+          by (apply token_of_minted; auto).
+        destruct Htk as [Htk Hex'].
+        assert (Hni' : next_index (pc_variant c) keys (last_key (token_of c w')) = zlen (pre ++ F)).
+        { rewrite Htk. simpl. apply (next_index_split _ keys (pre ++ F) R k' Hs Hkeys' Hk'ne); auto.
+          rewrite HF, app_assoc. exact Hle. }
+        assert (HlenR : zlen R = zlen rest - cp).
+        { assert (Hz : zlen rest = zlen F + zlen R) by (rewrite <- zlen_app; f_equal; exact HFR). lia. }
+        assert (Hss : zlen R < zlen ss).
+        { rewrite zlen_cons in Hfuel. lia. }
+        assert (Htok' : token_of c w' <> TokMalformed)
+          by (rewrite Htk; discriminate).
+        assert (Hexb : Forall is_byte (extra_of c w')) by (rewrite Hex'; exact Hex).
+        destruct (IH (pre ++ F) R w' Hkeys' Htok' Hexb Hni' Hss) as [IHe IHn].
+        assert (Hssne : ss <> []).
+        { intros ->. pose proof (zlen_nonneg R). unfold zlen in Hss at 2. simpl in Hss. lia. }
+        cbn [enumerates]. destruct (Z.ltb_spec s 0) as [|_]; [lia|].
+        rewrite (cap_is_spec s Hpos). fold cp. fold cn. fold F. fold k'. fold w'.
+        rewrite HlenF. destruct (Z.leb_spec cp cp); [|lia]. rewrite Z.eqb_refl.
+        replace (is_prefix F rest) with true by (symmetry; apply is_prefix_firstn).
+        fold (key_chain c keys dropkey ss w').
+        assert (Hnn : is_nil (key_chain c keys dropkey ss w') = false)
+          by (apply chain_req_nonempty; exact Hssne).
+        rewrite Hnn, HlenFn. fold R. cbn [andb negb].
+        split.
+        -- exact IHe.
+        -- rewrite zlen_cons. rewrite IHn, HlenR. reflexivity.
 Qed.
 
 (* ---- from hypotheses in boolean form ---- *)
@@ -468,14 +566,17 @@ Proof.
   eapply Forall_impl; [|exact Hf]. intros y Hy. unfold slt in *. eapply ltb_trans; eauto.
 Qed.
 
-Lemma keys_wf_spec keys : keys_wf keys = true -> StronglySorted slt keys /\ ~ In EmptyString keys.
+Lemma keys_wf_spec keys : keys_wf keys = true ->
+  StronglySorted slt keys /\ ~ In EmptyString keys /\ keys_utf8 keys.
 Proof.
-  unfold keys_wf. intros H. apply andb_true_iff in H. destruct H as [H1 H2]. split.
+  unfold keys_wf. intros H. apply andb_true_iff in H. destruct H as [H H3].
+  apply andb_true_iff in H. destruct H as [H1 H2]. split; [|split].
   - apply strictly_sorted_SS. exact H1.
   - intros Hin. apply negb_true_iff in H2.
     assert (existsb (String.eqb EmptyString) keys = true).
     { apply existsb_exists. exists EmptyString. split; auto. }
     congruence.
+  - intros k Hk. rewrite forallb_forall in H3. auto.
 Qed.
 
 Lemma SS_NoDup l : StronglySorted slt l -> NoDup l.
@@ -509,55 +610,45 @@ Qed.
 Lemma div_le_self a c : 0 <= a -> 1 <= c -> a / c <= a.
 Proof. intros Ha Hc. apply Z.div_le_upper_bound; nia. Qed.
 
-(* Main theorem, key-token servers: a complete chain from any well-formed token *)
-Lemma key_chain_good v keys size tok fuel :
-  keys_wf keys = true -> 0 <= size -> tok <> TokMalformed ->
-  (List.length keys < fuel)%nat ->
-  chain_good (expected_after keys tok) (cap_page_size size) (zlen keys) (key_chain v keys size fuel tok).
+(* a complete chain from any well-formed first token *)
+Lemma key_chain_good c keys dropkey sizes tok extra :
+  cfg_ok c = true -> keys_wf keys = true -> tok <> TokMalformed -> Forall is_byte extra ->
+  zlen (expected_after keys tok) < zlen sizes ->
+  let obs := key_chain c keys dropkey sizes (WFirst tok extra) in
+  enumerates (expected_after keys tok) (wrap32 (zlen keys)) sizes obs = true
+  /\ zlen obs = calls_key (zlen (expected_after keys tok)) sizes.
 Proof.
-  intros Hwf Hsize Htok Hfuel. destruct (keys_wf_spec keys Hwf) as [Hs Hne].
-  destruct (token_split v keys tok Hs Htok) as [pre [Hk Hni]].
-  apply (key_chain_from v keys size Hs Hne Hsize fuel pre _ tok Hk Htok Hni).
-  pose proof (expected_after_len keys tok). pose proof (zlen_nonneg (expected_after keys tok)).
-  pose proof (cap_bounds size Hsize).
-  pose proof (div_le_self (zlen (expected_after keys tok)) (cap_page_size size)).
-  unfold zlen in *. lia.
+  intros Hc Hwf Htok Hex Hfuel. destruct (keys_wf_spec keys Hwf) as [Hs [Hne Hu]].
+  destruct (token_split (pc_variant c) keys tok Hs Htok) as [pre [Hk Hni]].
+  apply (key_chain_from c keys dropkey Hc Hs Hne Hu sizes pre _ (WFirst tok extra) Hk Htok Hex Hni Hfuel).
 Qed.
 
-Lemma key_chain_rejects v keys size tok fuel :
-  (tok = TokMalformed \/ size < 0) -> (1 <= fuel)%nat ->
-  key_chain v keys size fuel tok = [OErr InvalidArgument].
+Lemma key_chain_rejects c keys dropkey sizes w :
+  token_of c w = TokMalformed -> sizes <> [] ->
+  key_chain c keys dropkey sizes w = [OErr InvalidArgument].
 Proof.
-  intros H Hf. destruct fuel as [|f]; [lia|]. unfold key_chain. cbn [chain_with]. unfold key_page.
-  destruct H as [->|Hneg]; [reflexivity|].
-  destruct tok; try reflexivity; destruct (Z.ltb_spec size 0); try lia; reflexivity.
+  intros H Hf. destruct sizes as [|s ss]; [congruence|]. unfold key_chain. cbn [chain_req].
+  unfold key_page. rewrite H. reflexivity.
 Qed.
 
-Lemma chain_good_enumerates {T} rest n size (obs : list (outcome T)) :
-  0 <= size -> zlen rest <= n ->
-  chain_good rest (cap_page_size size) n obs -> enumerates rest n size obs = true.
+Theorem key_model_ok s c keys dropkey sizes raw0 tok extra :
+  cfg_ok c = true -> keys_wf keys = true -> in32 (zlen keys) = true -> zlen keys < zlen sizes ->
+  Forall is_byte extra ->
+  C15_ok (KKeys s keys dropkey sizes raw0 tok extra (key_chain c keys dropkey sizes (WFirst tok extra))) = true.
 Proof.
-  intros Hsize Hn [Hs [Hcat [Hfit Hlen]]]. unfold enumerates.
-  rewrite Hs, Hcat, (cap_is_spec size Hsize), Hfit.
-  rewrite (list_eqb_refl String.eqb String.eqb_refl). simpl.
-  pose proof (cap_bounds size Hsize). pose proof (zlen_nonneg rest).
-  pose proof (div_le_self (zlen rest) (cap_page_size size)).
-  destruct (Z.leb_spec (zlen obs) (n + 2)); [reflexivity|lia].
-Qed.
-
-Theorem key_model_ok s keys size tok :
-  keys_wf keys = true ->
-  C15_ok (KKeys s keys size tok (key_chain (variant_of s) keys size (harness_fuel keys) tok)) = true.
-Proof.
-  intros Hwf. unfold C15_ok, harness_fuel.
+  intros Hc Hwf H32 Hfuel Hex. unfold C15_ok.
+  assert (Hsz : sizes <> []).
+  { intros ->. pose proof (zlen_nonneg keys). unfold zlen in Hfuel at 2. simpl in Hfuel. lia. }
+  assert (Hgood : tok <> TokMalformed ->
+    enumerates (expected_after keys tok) (zlen keys) sizes (key_chain c keys dropkey sizes (WFirst tok extra))
+    && (zlen (key_chain c keys dropkey sizes (WFirst tok extra)) <=? zlen keys + 2) = true).
+  { intros Ht. pose proof (expected_after_len keys tok) as Hl.
+    destruct (key_chain_good c keys dropkey sizes tok extra Hc Hwf Ht Hex ltac:(lia)) as [He Hn].
+    rewrite (in32_wrap _ H32) in He. rewrite He, Hn.
+    pose proof (calls_key_le sizes (zlen (expected_after keys tok)) (zlen_nonneg _)).
+    destruct (Z.leb_spec (calls_key (zlen (expected_after keys tok)) sizes) (zlen keys + 2)); [reflexivity|lia]. }
   destruct tok as [|k|].
-  - destruct (Z.ltb_spec size 0) as [Hneg|Hpos].
-    + rewrite key_chain_rejects by (auto; lia). reflexivity.
-    + apply chain_good_enumerates; auto; [apply expected_after_len|].
-      apply key_chain_good; auto; [discriminate|lia].
-  - destruct (Z.ltb_spec size 0) as [Hneg|Hpos].
-    + rewrite key_chain_rejects by (auto; lia). reflexivity.
-    + apply chain_good_enumerates; auto; [apply expected_after_len|].
-      apply key_chain_good; auto; [discriminate|lia].
-  - rewrite key_chain_rejects by (auto; lia). reflexivity.
+  - apply Hgood. discriminate.
+  - apply Hgood. discriminate.
+  - rewrite key_chain_rejects by auto. reflexivity.
 Qed.
